@@ -22,6 +22,9 @@ CORPUS = [
     M("api-error-not-cloud", C, "class ApiError(CloudError):", "class ApiError(Exception):"),
     M("one-byte-order", D, '        for endian in ["little", "big"]:', '        for endian in ["little"]:'),
     M("token-of-other-order", D, "            try:\n                await dev.authenticate(token, key)\n                return True", "            try:\n                await dev.authenticate(first_token or token, key)\n                return True",
+      also=[(D, '        for endian in ["little", "big"]:', '        first_token = None\n        for endian in ["little", "big"]:'),
+            (D, "            try:\n                await dev.authenticate(first_token or token, key)", "            first_token = first_token or token\n            try:\n                await dev.authenticate(first_token or token, key)")]),
+    M("n-token-alias-never-set", D, "            try:\n                await dev.authenticate(token, key)\n                return True", "            try:\n                await dev.authenticate(first_token or token, key)\n                return True", "S",
       also=[(D, '        for endian in ["little", "big"]:', '        first_token = None\n        for endian in ["little", "big"]:')]),
     M("udpid-width", D, "                dev.id.to_bytes(6, endian)).hex()  # type: ignore", "                dev.id.to_bytes(8, endian)).hex()  # type: ignore"),
     M("udpid-fixed-order", D, "                dev.id.to_bytes(6, endian)).hex()  # type: ignore", "                dev.id.to_bytes(6, \"little\")).hex()  # type: ignore"),
@@ -73,4 +76,11 @@ CORPUS += [
       "        for endian, udpid in [(o, Security.udpid(dev.id.to_bytes(6, \"big\")).hex()) for o in (\"little\", \"big\")]:\n"),
     M("n-candidates-prepared", D, "        for endian in [\"little\", \"big\"]:\n            udpid = Security.udpid(\n                dev.id.to_bytes(6, endian)).hex()  # type: ignore\n",
       "        for endian, udpid in [(o, Security.udpid(dev.id.to_bytes(6, o)).hex()) for o in (\"little\", \"big\")]:\n", "S"),
+]
+# round 5 (C19.a): the SmartHome password salt is the login key of the selected server
+CORPUS += [
+    M("smarthome-salt-international-only", C, "            login_hash = login_id + m1.hexdigest() + self._login_key\n            m2 = hashlib.sha256(login_hash.encode(\"ASCII\"))\n\n            return m2.hexdigest()",
+      "            login_hash = login_id + m1.hexdigest() + self.LOGIN_KEY\n            m2 = hashlib.sha256(login_hash.encode(\"ASCII\"))\n\n            return m2.hexdigest()"),
+    M("n-smarthome-salt-hoisted", C, "            login_hash = login_id + m1.hexdigest() + self._login_key\n            m2 = hashlib.sha256(login_hash.encode(\"ASCII\"))\n\n            return m2.hexdigest()",
+      "            salt = self._login_key\n            login_hash = login_id + m1.hexdigest() + salt\n            m2 = hashlib.sha256(login_hash.encode(\"ASCII\"))\n\n            return m2.hexdigest()", "S"),
 ]
